@@ -30,6 +30,8 @@ RULE = ("configs: random trees (depth <= 4, fan-out <= 4, at most ~40 lines, ind
         "NotImplementedError, typeguard's TypeCheckError where the first element decides). The oracle judges compiled patterns like the str, "
         "tuples like lists, regex_groups rows against the brute-force chains, and the refusal while pending; for BaseCfgLine / missing / ill-typed "
         "arguments the property does not say which lines are right (only: sorted, unique, lines of the config) and the answer is compared with the model only. "
+        "Half of all cases leave the keyword arguments that sit at their documented default (recurse / all_children / empty_branches / reverse) "
+        "out of the call, so the defaults of the signatures are observed as well. "
         "non-trivial = the config has a child line and the answer is a non-empty list; distinct by request.")
 LEVEL_TEXT = ("Theorems (Lean 4, all trees, all oracle rows): find_objects = ascending list of matching lines (reversed on request, duplicate free, in range); "
               "find_object_branches without empty branches = the lexicographically ordered list of all chains of direct parent->child lines matching "
@@ -512,6 +514,15 @@ def rand_cfg(rng):
 
 
 def cases(rng, tier):
+    """half of the cases leave the keyword arguments that sit at their documented default out of the call
+    (recurse / all_children / empty_branches / reverse), so the defaults of the signatures are observed too"""
+    orng = __import__("random").Random(rng.random())
+    for c in _cases(rng, tier):
+        c["omit"] = orng.random() < 0.5
+        yield c
+
+
+def _cases(rng, tier):
     T.selfcheck()
     n = {"quick": 2000, "thorough": 20000, "search": 400}[tier]
     for _ in range(n):
@@ -598,13 +609,32 @@ def mk_arg(parse, case, kind, pat):
     return 3
 
 
+# documented defaults of the keyword arguments that the runners used to pass explicitly every time
+REC_DEFAULT = {"p2": True, "c2": True, "w2": False, "wl": False, "rc": False, "hc": False, "oc": False}
+
+
+def rec_kw(case, name="recurse"):
+    """recurse= / all_children= of the request; LEFT OUT when the case says so and the value is the documented default"""
+    rec = "c" in case["flags"]
+    if case.get("omit") and rec == REC_DEFAULT[case["api"]]:
+        return {}
+    return {name: rec}
+
+
+def br_kw(case):
+    fl = case["flags"]
+    kw = {"empty_branches": "e" in fl, "reverse": "r" in fl}
+    if case.get("omit"):
+        kw = {k: v for k, v in kw.items() if v}
+    return kw
+
+
 def run_form_query(parse, case, objs):
     api, fl = case["api"], case["flags"]
     kw = {}
     for c, name in (("a", "exactmatch"), ("w", "ignore_ws"), ("x", "escape_chars"), ("r", "reverse")):
         if c in fl:
             kw[name] = True
-    rec = "c" in fl
     shape, first, child = split_args(case)
     args = [mk_arg(parse, case, k, p) for k, p in first]
     a0 = args[0] if shape == "1" else (tuple(args) if shape == "t" else list(args))
@@ -612,26 +642,26 @@ def run_form_query(parse, case, objs):
     if api in ("fo", "fol"):
         return T.lnums(parse.find_objects(a0, **kw))
     if api == "br" and "g" in fl:
-        return enc_matrix(parse.find_object_branches(a0, regex_groups=True, empty_branches="e" in fl, reverse="r" in fl))
+        return enc_matrix(parse.find_object_branches(a0, regex_groups=True, **br_kw(case)))
     if api == "br":
-        return enc_branches(parse.find_object_branches(a0, empty_branches="e" in fl, reverse="r" in fl))
+        return enc_branches(parse.find_object_branches(a0, **br_kw(case)))
     if api == "pl":
         return T.lnums(parse.find_parent_objects(a0, **kw))
     if api == "cl":
         return T.lnums(parse.find_child_objects(a0, **kw))
     if api == "p2":
-        return T.lnums(parse.find_parent_objects(a0, c0, recurse=rec, **kw))
+        return T.lnums(parse.find_parent_objects(a0, c0, **rec_kw(case), **kw))
     if api == "c2":
-        return T.lnums(parse.find_child_objects(a0, c0, recurse=rec, **kw))
+        return T.lnums(parse.find_child_objects(a0, c0, **rec_kw(case), **kw))
     if api == "w2":
-        return T.lnums(parse.find_parent_objects_wo_child(a0, c0, recurse=rec, **kw))
+        return T.lnums(parse.find_parent_objects_wo_child(a0, c0, **rec_kw(case), **kw))
     if api == "wl":
-        return T.lnums(parse.find_parent_objects_wo_child(a0, recurse=rec, **kw))
+        return T.lnums(parse.find_parent_objects_wo_child(a0, **rec_kw(case), **kw))
     if api == "rc":
-        return T.lnums(parse.re_search_children(a0, recurse=rec))
+        return T.lnums(parse.re_search_children(a0, **rec_kw(case)))
     # objs: the line objects as they were before a pending insert
     if api == "hc":
-        return T.lnums([o for o in objs if o.has_child_with(a0, all_children=rec)])
+        return T.lnums([o for o in objs if o.has_child_with(a0, **rec_kw(case, "all_children"))])
     if api == "os":
         out = []
         for o in objs:
@@ -644,7 +674,7 @@ def run_form_query(parse, case, objs):
                 return "wrong-default:%d" % o.linenum
         return T.lnums(out)
     if api == "oc":
-        return ";".join(T.lnums(o.re_search_children(a0, recurse=rec)) for o in objs)
+        return ";".join(T.lnums(o.re_search_children(a0, **rec_kw(case))) for o in objs)
     raise AssertionError(api)
 
 
@@ -661,29 +691,28 @@ def run_query(parse, case, objs=None):
         kw["escape_chars"] = True
     if "r" in fl:
         kw["reverse"] = True
-    rec = "c" in fl
     if api == "fo":
         return T.lnums(parse.find_objects(pats[0], **kw))
     if api == "fol":
         return T.lnums(parse.find_objects(list(pats), **kw))
     if api == "br":
-        return enc_branches(parse.find_object_branches(list(pats), empty_branches="e" in fl, reverse="r" in fl))
+        return enc_branches(parse.find_object_branches(list(pats), **br_kw(case)))
     if api == "pl":
         return T.lnums(parse.find_parent_objects(list(pats), **kw))
     if api == "cl":
         return T.lnums(parse.find_child_objects(list(pats), **kw))
     if api == "p2":
-        return T.lnums(parse.find_parent_objects(pats[0], pats[1], recurse=rec, **kw))
+        return T.lnums(parse.find_parent_objects(pats[0], pats[1], **rec_kw(case), **kw))
     if api == "c2":
-        return T.lnums(parse.find_child_objects(pats[0], pats[1], recurse=rec, **kw))
+        return T.lnums(parse.find_child_objects(pats[0], pats[1], **rec_kw(case), **kw))
     if api == "w2":
-        return T.lnums(parse.find_parent_objects_wo_child(pats[0], pats[1], recurse=rec, **kw))
+        return T.lnums(parse.find_parent_objects_wo_child(pats[0], pats[1], **rec_kw(case), **kw))
     if api == "wl":
-        return T.lnums(parse.find_parent_objects_wo_child(list(pats), recurse=rec, **kw))
+        return T.lnums(parse.find_parent_objects_wo_child(list(pats), **rec_kw(case), **kw))
     if api == "rc":
-        return T.lnums(parse.re_search_children(pats[0], recurse=rec))
+        return T.lnums(parse.re_search_children(pats[0], **rec_kw(case)))
     if api == "hc":
-        return T.lnums([o for o in parse.objs if o.has_child_with(pats[0], all_children=rec)])
+        return T.lnums([o for o in parse.objs if o.has_child_with(pats[0], **rec_kw(case, "all_children"))])
     raise AssertionError(api)
 
 
@@ -959,6 +988,8 @@ def describe(case):
     if is_form(case):
         d["argument_kinds"] = kinds_of(case) + " (s str, p re.compile, o BaseCfgLine, n None, i int)"
         d["tuple"], d["insert_pending"], d["line_argument_linenum"] = case.get("tuple"), case.get("pend"), case.get("onum")
+    if case.get("omit"):
+        d["keyword_arguments_at_their_default"] = "left out of the call"
     d["api_name"] = API_NAME[case["api"]]
     d["lines"] = case["lines"] if len(case["lines"]) <= 45 else case["lines"][:45] + ["…"]
     return d
